@@ -24,7 +24,22 @@ Lemma enum_ok_parts e : enum_ok e = true ->
   ident (e_col e) = true /\ ident (e_tname e) = true /\ e_labels e <> [] /\ forallb ident (e_labels e) = true.
 Proof.
   unfold enum_ok. intros H. apply andb_true_iff in H as [H H4]. apply andb_true_iff in H as [H H3].
-  apply andb_true_iff in H as [H1 H2]. repeat split; auto. destruct (e_labels e); [discriminate|discriminate].
+  apply andb_true_iff in H as [H1 H2]. repeat split; auto.
+  - destruct (e_labels e); [discriminate|discriminate].
+  - eapply forallb_impl; [|exact H4]. intros l Hl. now apply andb_true_iff in Hl as [Hl _].
+Qed.
+
+Lemma enum_ok_labels_no_td e : enum_ok e = true -> forallb no_td (e_labels e) = true.
+Proof.
+  unfold enum_ok. intros H. apply andb_true_iff in H as [_ H4].
+  eapply forallb_impl; [|exact H4]. intros l Hl. now apply andb_true_iff in Hl as [_ Hl].
+Qed.
+
+Lemma col_ok_parts c : col_ok c = true ->
+  ident (c_name c) = true /\ no_td (c_name c) = true /\ match c_arr c with Some l => 0 <? l = true | None => True end.
+Proof.
+  unfold col_ok. intros H. apply andb_true_iff in H as [H _]. apply andb_true_iff in H as [H H3].
+  apply andb_true_iff in H as [H1 H2]. repeat split; auto. destruct (c_arr c); auto.
 Qed.
 
 Lemma brack_sfx n : exists mid, brack n = LBRACK :: mid ++ [RBRACK] /\ forallb sfxch mid = true.
@@ -126,7 +141,7 @@ Proof.
   intros Hes. induction cols as [|c cols IH]; intros Hc; [exists []; constructor|].
   cbn [forallb] in Hc. apply andb_true_iff in Hc as [Hc1 Hc2]. destruct (IH Hc2) as [ws Hws].
   destruct (col_words es c Hes Hc1) as [w [H1 [H2 [H3 _]]]]. exists (w :: ws). constructor; auto.
-  unfold col_ok in Hc1. apply andb_true_iff in Hc1 as [Hi _]. destruct (ident_word _ Hi). auto.
+  destruct (col_ok_parts c Hc1) as [Hi _]. destruct (ident_word _ Hi). auto.
 Qed.
 
 Lemma decl_line_col_line es c w : ctype_word es c = Some w -> decl_line es c = Some (col_line es c w).
